@@ -281,7 +281,15 @@ func runNet(n int, sc Sched, sizes [][]int, budget time.Duration,
 				ph = append(ph, fmt.Sprintf("party %d in %v", p.id, p.phase.Load()))
 			}
 			teardown()
-			return netResult{kind: "timeout", sig: "hang",
+			first := "done"
+			for _, name := range []string{"created", "Connect", "Run/Get", "Close"} {
+				for _, p := range parties {
+					if first == "done" && p.phase.Load() == name {
+						first = name
+					}
+				}
+			}
+			return netResult{kind: "timeout", sig: "hang/" + first,
 				msg: fmt.Sprintf("no completion within %v: %s", budget, strings.Join(ph, ", "))}
 		}
 	}
